@@ -198,6 +198,18 @@ CLAIMED["C19"] = (
     "printer/parser sibling agreement, registry tables, must-facts, bounded abstract evaluation of extracted rewrite rules (static analysis)",
     "DESIGN.md section 5, C19",
 )
+CLAIMED["C20"] = (
+    "Claimed for the switch-count clause, value order and search completeness: by path enumeration over abstract "
+    "switches (choose with 1/2/3 alternatives, mux) PEOp.get_true_switches adds exactly as many as decode_abstract_graph "
+    "emits on every non-raising path; values are appended in the PE's get_switches() order to the very list that is "
+    "returned and mux placeholders are replaced in place; every collected mux is handed to search_mapping, which tries "
+    "both positions of every mux and returns only complete mappings accepted by valid_mapping; the accelerator sizes its "
+    "switch fields by the former and fills them by the latter. NOT decided: that the decoded switch values make the "
+    "merged PE compute the kernel, nor stability under merge histories (behavioural).",
+    WALKER_NOTE,
+    "abstract path enumeration over a finite switch domain, sibling count agreement, dependency templates (static analysis)",
+    "DESIGN.md section 5, C20",
+)
 NOT_APPLICABLE = {
     "C02": "address-stream equality is integer arithmetic over runtime strides/bounds; no structural necessary condition carries weight (DESIGN.md section 5, C02)",
 }
